@@ -431,9 +431,7 @@ def run(chk):
     sc, atoms, mat = _load()
     from symex import loader
 
-    chk.functions = loader.describe([atoms.ScatteringParams._parse_line, atoms._assemble_scalar, atoms._find_line_with_isotope, atoms._load_atomic_weight,
-                                     atoms._load_atomic_mass, atoms._parse_isotope_name, atoms.Atom.for_isotope.__wrapped__, atoms.reference_wavelength,
-                                     mat.Material.attenuation_coefficient])
+    chk.functions = loader.describe_exprs(['atoms.ScatteringParams._parse_line', 'atoms._assemble_scalar', 'atoms._find_line_with_isotope', 'atoms._load_atomic_weight', 'atoms._load_atomic_mass', 'atoms._parse_isotope_name', 'atoms.Atom.for_isotope.__wrapped__', 'atoms.reference_wavelength', 'mat.Material.attenuation_coefficient'], {**globals(), **locals()})
     from symex import symre
     nval, mism = symre.self_test()
     chk.traces_validated += nval
